@@ -70,10 +70,10 @@ def main():
         na.append({"property_id": pid, "reason": NOT_APPLICABLE.get(pid, PENDING)})
     m = {
         "version": 1,
-        "setup_cmd": "cd /verif/sim && CARGO_NET_OFFLINE=true cargo build --release --offline && cd /verif && ./sim/target/release/bpsim selftest all",
+        "setup_cmd": "cd /verif/sim && CARGO_NET_OFFLINE=true cargo build --release --offline && cd /verif/sim-nohooks && CARGO_NET_OFFLINE=true cargo build --release --offline && cd /verif && ./sim/target/release/bpsim selftest all",
         "hooks": {
             "guard": "cargo feature verif-hooks (off by default)",
-            "enable": "the harness crate /verif/sim depends on /repo by path with features=[\"verif-hooks\"]; every ./check rebuilds it from /repo's working tree",
+            "enable": "the harness crate /verif/sim depends on /repo by path with features=[\"verif-hooks\"]; every ./check rebuilds it from /repo's working tree. C08 additionally rebuilds /verif/sim-nohooks, which links /repo with the guard OFF and repeats the list-length grid through the public API",
             "baseline_off_cmd": "cd /repo && cargo test --workspace --no-fail-fast --offline",
             "source_commits": HOOK_COMMITS,
             "add_only": True,
